@@ -4,6 +4,7 @@ import (
 	"fmt"
 	"go/ast"
 	"go/token"
+	"sort"
 	"strconv"
 	"strings"
 )
@@ -45,15 +46,18 @@ func countWrites(body ast.Node, targets map[string]bool) int {
 }
 
 type recvCase struct {
-	ch, val  string
-	okFlag   bool // `v, ok := <-ch`
-	closedOK bool // first statement is exactly `if !ok { ch = nil; continue }`
+	ch       string // role of the channel received from
+	okFlag   bool   // `v, ok := <-ch`
+	closedOK bool   // the closed branch is exactly `ch = nil; continue`
 	send     string
 	sendRet  bool // `if err := send; err != nil { …; return }` is the only other statement
 	extra    int  // further statements
 }
 
-func analyseRecvCase(cc *ast.CommClause) (recvCase, error) {
+// analyseRecvCase: `case v, ok := <-ch:` followed by the closed-channel test and the send.  The
+// test may be written `if !ok { ch = nil; continue }; <send>` or `if ok { <send> } else { ch = nil; continue }`
+// (or the latter with the branches swapped).
+func analyseRecvCase(env *nenv, cc *ast.CommClause) (recvCase, error) {
 	var rc recvCase
 	as, ok := cc.Comm.(*ast.AssignStmt)
 	if !ok || len(as.Rhs) != 1 {
@@ -63,31 +67,65 @@ func analyseRecvCase(cc *ast.CommClause) (recvCase, error) {
 	if !ok || ue.Op != token.ARROW {
 		return rc, fmt.Errorf("receive case is not a receive")
 	}
-	rc.ch = exprString(ue.X)
-	rc.val = exprString(as.Lhs[0])
-	rc.okFlag = len(as.Lhs) == 2 && exprString(as.Lhs[1]) == "ok"
+	env = env.clone()
+	chName := exprString(ue.X)
+	rc.ch = env.expr(ue.X)
+	if id, ok := as.Lhs[0].(*ast.Ident); ok {
+		env.names[id.Name] = "$v"
+	}
+	okName := ""
+	if len(as.Lhs) == 2 {
+		if id, ok := as.Lhs[1].(*ast.Ident); ok {
+			okName = id.Name
+			env.names[okName] = "$ok"
+			rc.okFlag = true
+		}
+	}
+	isClosedBranch := func(l []ast.Stmt) bool {
+		if len(l) != 2 {
+			return false
+		}
+		a, ok1 := l[0].(*ast.AssignStmt)
+		b, ok2 := l[1].(*ast.BranchStmt)
+		return ok1 && ok2 && a.Tok == token.ASSIGN && len(a.Lhs) == 1 && exprString(a.Lhs[0]) == chName &&
+			exprString(a.Rhs[0]) == "nil" && b.Tok == token.CONTINUE && b.Label == nil
+	}
 	body := cc.Body
 	if rc.okFlag && len(body) > 0 {
-		if is, ok := body[0].(*ast.IfStmt); ok && is.Init == nil && is.Else == nil && exprString(is.Cond) == "!ok" && len(is.Body.List) == 2 {
-			a, ok1 := is.Body.List[0].(*ast.AssignStmt)
-			b, ok2 := is.Body.List[1].(*ast.BranchStmt)
-			if ok1 && ok2 && a.Tok == token.ASSIGN && len(a.Lhs) == 1 && exprString(a.Lhs[0]) == rc.ch && exprString(a.Rhs[0]) == "nil" && b.Tok == token.CONTINUE && b.Label == nil {
+		if is, ok := body[0].(*ast.IfStmt); ok && is.Init == nil {
+			cond := env.expr(is.Cond)
+			var elseList []ast.Stmt
+			if b, ok := is.Else.(*ast.BlockStmt); ok {
+				elseList = b.List
+			}
+			switch {
+			case cond == "!$ok" && is.Else == nil && isClosedBranch(is.Body.List):
 				rc.closedOK = true
 				body = body[1:]
+			case cond == "!$ok" && elseList != nil && isClosedBranch(is.Body.List) && len(body) == 1:
+				rc.closedOK = true
+				body = elseList
+			case cond == "$ok" && elseList != nil && isClosedBranch(elseList) && len(body) == 1:
+				rc.closedOK = true
+				body = is.Body.List
 			}
 		}
 	}
 	for _, st := range body {
 		is, ok := st.(*ast.IfStmt)
-		if ok && is.Init != nil && exprString(is.Cond) == "err != nil" && rc.send == "" {
-			if ia, ok := is.Init.(*ast.AssignStmt); ok && len(ia.Rhs) == 1 {
-				rc.send = exprString(ia.Rhs[0])
-				if n := len(is.Body.List); n > 0 {
-					if r, ok := is.Body.List[n-1].(*ast.ReturnStmt); ok && len(r.Results) == 0 {
-						rc.sendRet = true
+		if ok && is.Init != nil && rc.send == "" {
+			if ia, ok := is.Init.(*ast.AssignStmt); ok && len(ia.Rhs) == 1 && len(ia.Lhs) == 1 {
+				e2 := env.clone()
+				e2.names[exprString(ia.Lhs[0])] = "$err"
+				if e2.expr(is.Cond) == "$err != nil" {
+					rc.send = env.expr(ia.Rhs[0])
+					if n := len(is.Body.List); n > 0 {
+						if r, ok := is.Body.List[n-1].(*ast.ReturnStmt); ok && len(r.Results) == 0 {
+							rc.sendRet = true
+						}
 					}
+					continue
 				}
-				continue
 			}
 		}
 		rc.extra++
@@ -116,6 +154,9 @@ func genIpcStreamShape(repo string) (string, error) {
 	if hs == nil {
 		return "", fmt.Errorf("handleStream not found")
 	}
+	henv := newEnv(constLiterals(ipc, hs)).withHelpers(ipc)
+	henv.bindSignature(hs, "$ipc", map[string]string{"IPCClient": "$client", "uint64": "$seq"})
+	henv.bindLocals(hs.Body, map[string]string{"streamRequest": "$req", "responseHeader": "$resp"}, map[string]string{"ParseEventFilter($req.Type)": "$filters"})
 	parseArg, ctorFilterArg := "<missing>", "<missing>"
 	parseCalls := 0
 	ast.Inspect(hs.Body, func(n ast.Node) bool {
@@ -124,23 +165,44 @@ func genIpcStreamShape(repo string) (string, error) {
 			case "ParseEventFilter":
 				parseCalls++
 				if len(c.Args) == 1 {
-					parseArg = exprString(c.Args[0])
+					parseArg = henv.expr(c.Args[0])
 				}
 			case "newEventStream":
 				if len(c.Args) >= 2 {
-					ctorFilterArg = exprString(c.Args[1])
+					ctorFilterArg = henv.expr(c.Args[1])
 				}
 			}
 		}
 		return true
 	})
+	// the filters handed to the stream are the parsed ones: either the local defined from the parse or the call itself
 	filtersFrom := "<missing>"
-	for _, st := range hs.Body.List {
-		if as, ok := st.(*ast.AssignStmt); ok && as.Tok == token.DEFINE && len(as.Lhs) == 1 && exprString(as.Lhs[0]) == "filters" {
-			filtersFrom = exprString(as.Rhs[0])
-		}
+	if ctorFilterArg == "$filters" || ctorFilterArg == "ParseEventFilter($req.Type)" {
+		filtersFrom = "ParseEventFilter(" + parseArg + ")"
+		ctorFilterArg = "$filters"
 	}
-	reqWrites := countWrites(hs.Body, map[string]bool{"req": true, "req.Type": true, "filters": true})
+	// writes to the request or to the parsed filters after their definition (by role, whatever they are called)
+	reqWrites := 0
+	ast.Inspect(hs.Body, func(x ast.Node) bool {
+		switch st := x.(type) {
+		case *ast.AssignStmt:
+			if st.Tok == token.DEFINE {
+				return true
+			}
+			for _, l := range st.Lhs {
+				switch henv.expr(l) {
+				case "$req", "$req.Type", "$filters":
+					reqWrites++
+				}
+			}
+		case *ast.IncDecStmt:
+			switch henv.expr(st.X) {
+			case "$req", "$req.Type", "$filters":
+				reqWrites++
+			}
+		}
+		return true
+	})
 
 	// ---- eventStream
 	he := findFunc(esf, "eventStream", "HandleEvent")
@@ -149,6 +211,8 @@ func genIpcStreamShape(repo string) (string, error) {
 	if he == nil || ne == nil || sm == nil {
 		return "", fmt.Errorf("eventStream functions not found")
 	}
+	eenv := newEnv(constLiterals(esf, he)).withHelpers(esf)
+	eenv.bindSignature(he, "$es", map[string]string{"Event": "$e"})
 	st := flat(he.Body)
 	if len(st) < 2 {
 		return "", fmt.Errorf("HandleEvent too short")
@@ -157,11 +221,17 @@ func genIpcStreamShape(repo string) (string, error) {
 	if !ok {
 		return "", fmt.Errorf("HandleEvent does not start with the filter loop")
 	}
-	filterRange := exprString(rng.X)
+	filterRange := eenv.expr(rng.X)
+	// `for _, f := range xs { f.Invoke(e) }` and `for i := range xs { xs[i].Invoke(e) }` are the same loop
+	if v, ok := rng.Value.(*ast.Ident); ok && v.Name != "_" {
+		eenv.names[v.Name] = "$f"
+	} else if k, ok := rng.Key.(*ast.Ident); ok && rng.Value == nil && k.Name != "_" {
+		eenv.names[k.Name] = "$i"
+	}
 	filterCond, filterJump := "<missing>", "<missing>"
 	if len(rng.Body.List) == 1 {
 		if is, ok := rng.Body.List[0].(*ast.IfStmt); ok && is.Init == nil && is.Else == nil && len(is.Body.List) == 1 {
-			filterCond = exprString(is.Cond)
+			filterCond = strings.Replace(eenv.expr(is.Cond), filterRange+"[$i]", "$f", -1)
 			if b, ok := is.Body.List[0].(*ast.BranchStmt); ok && b.Tok == token.GOTO {
 				filterJump = "goto"
 			}
@@ -172,7 +242,7 @@ func genIpcStreamShape(repo string) (string, error) {
 	ast.Inspect(ne.Body, func(n ast.Node) bool {
 		if kv, ok := n.(*ast.KeyValueExpr); ok && exprString(kv.Key) == "eventCh" {
 			if c, ok := kv.Value.(*ast.CallExpr); ok && exprString(c.Fun) == "make" && len(c.Args) == 2 {
-				chanCap = exprString(c.Args[1])
+				chanCap = newEnv(constLiterals(esf, ne)).expr(c.Args[1])
 			}
 		}
 		return true
@@ -181,9 +251,11 @@ func genIpcStreamShape(repo string) (string, error) {
 		return "", fmt.Errorf("eventCh capacity is not a literal: %s", chanCap)
 	}
 	streamRange := "<missing>"
+	senv := newEnv(constLiterals(esf, sm))
+	senv.bindSignature(sm, "$es", nil)
 	for _, s := range sm.Body.List {
 		if r, ok := s.(*ast.RangeStmt); ok {
-			streamRange = exprString(r.X)
+			streamRange = senv.expr(r.X)
 		}
 	}
 
@@ -192,8 +264,14 @@ func genIpcStreamShape(repo string) (string, error) {
 	if qs == nil {
 		return "", fmt.Errorf("Stream not found")
 	}
+	qenv := newEnv(constLiterals(qsf, qs)).withHelpers(qsf)
+	qenv.bindSignature(qs, "$qs", map[string]string{"QueryResponse": "$resp"})
+	qenv.bindLocals(qs.Body, nil, map[string]string{
+		"time.Until($resp.Deadline())": "$remaining", "time.After($remaining)": "$done",
+		"time.After(time.Until($resp.Deadline()))": "$done",
+		"$resp.AckCh()": "$ackCh", "$resp.ResponseCh()": "$respCh"})
 	var loop *ast.ForStmt
-	// prologue: the statements before the loop, as `name := expr` pairs; anything else is counted
+	// prologue: the statements before the loop, as `role := expr` pairs (sorted); anything else is counted
 	var prologue []string
 	prologueOther, afterLoop := 0, 0
 	for _, s := range qs.Body.List {
@@ -209,11 +287,18 @@ func genIpcStreamShape(repo string) (string, error) {
 			continue
 		}
 		if as, ok := s.(*ast.AssignStmt); ok && as.Tok == token.DEFINE && len(as.Lhs) == 1 && len(as.Rhs) == 1 {
-			prologue = append(prologue, fmt.Sprintf("(%s, %s)", q(exprString(as.Lhs[0])), q(exprString(as.Rhs[0]))))
+			rhs := qenv.expr(as.Rhs[0])
+			if rhs == "time.After(time.Until($resp.Deadline()))" {
+				// the two timer definitions written as one
+				prologue = append(prologue, fmt.Sprintf("(%s, %s)", q("$remaining"), q("time.Until($resp.Deadline())")))
+				rhs = "time.After($remaining)"
+			}
+			prologue = append(prologue, fmt.Sprintf("(%s, %s)", q(qenv.expr(as.Lhs[0])), q(rhs)))
 		} else {
 			prologueOther++
 		}
 	}
+	sort.Strings(prologue)
 	if loop == nil || len(loop.Body.List) != 1 {
 		return "", fmt.Errorf("Stream: expected `for { select { … } }`")
 	}
@@ -228,13 +313,13 @@ func genIpcStreamShape(repo string) (string, error) {
 		cc := c.(*ast.CommClause)
 		if es, ok := cc.Comm.(*ast.ExprStmt); ok {
 			// `<-done`
-			if ue, ok := es.X.(*ast.UnaryExpr); ok && ue.Op == token.ARROW && exprString(ue.X) == "done" {
+			if ue, ok := es.X.(*ast.UnaryExpr); ok && ue.Op == token.ARROW && qenv.expr(ue.X) == "$done" {
 				doneCases++
 				if len(cc.Body) == 2 {
 					is, ok1 := cc.Body[0].(*ast.IfStmt)
 					r, ok2 := cc.Body[1].(*ast.ReturnStmt)
 					if ok1 && ok2 && len(r.Results) == 0 && is.Init != nil {
-						if ia, ok := is.Init.(*ast.AssignStmt); ok && len(ia.Rhs) == 1 && exprString(ia.Rhs[0]) == "qs.sendDone()" {
+						if ia, ok := is.Init.(*ast.AssignStmt); ok && len(ia.Rhs) == 1 && qenv.expr(ia.Rhs[0]) == "$qs.sendDone()" {
 							doneCaseOK = true
 						}
 					}
@@ -246,17 +331,18 @@ func genIpcStreamShape(repo string) (string, error) {
 		if cc.Comm == nil {
 			return "", fmt.Errorf("Stream: select has a default case")
 		}
-		rc, err := analyseRecvCase(cc)
+		rc, err := analyseRecvCase(qenv, cc)
 		if err != nil {
 			return "", err
 		}
 		recvs = append(recvs, rc)
 	}
+	sort.SliceStable(recvs, func(a, b int) bool { return recvs[a].ch < recvs[b].ch })
 	doneSites, breaks := 0, 0
 	ast.Inspect(qs.Body, func(n ast.Node) bool {
 		switch x := n.(type) {
 		case *ast.CallExpr:
-			if exprString(x.Fun) == "qs.sendDone" {
+			if qenv.expr(x.Fun) == "$qs.sendDone" {
 				doneSites++
 			}
 		case *ast.BranchStmt:
